@@ -112,7 +112,15 @@ struct Inner<C> {
 
 struct PublishInfo {
     inflight: HashSet<num::NonZeroU16>,
+    /// number of publish packet ids in `inflight`
+    inflight_pubs: usize,
     aliases: HashMap<num::NonZeroU16, ByteString>,
+}
+
+impl PublishInfo {
+    fn release_pub(&mut self) {
+        self.inflight_pubs = self.inflight_pubs.saturating_sub(1);
+    }
 }
 
 impl<T, C, E> Dispatcher<T, C, E>
@@ -137,6 +145,7 @@ where
                 info: RefCell::new(PublishInfo {
                     aliases: HashMap::default(),
                     inflight: HashSet::default(),
+                    inflight_pubs: 0,
                 }),
             }),
         }
@@ -211,12 +220,13 @@ where
                     if let Some(pid) = packet_id {
                         // check for receive maximum
                         let receive_max = state.receive_max();
-                        if receive_max != 0 && inner.inflight.len() >= receive_max as usize {
+                        // receive maximum applies to publish packets only [MQTT-3.3.4-7]
+                        if receive_max != 0 && inner.inflight_pubs >= receive_max as usize {
                             log::trace!(
                                 "{}: Receive maximum exceeded: max: {} in-flight: {}",
                                 self.tag(),
                                 receive_max,
-                                inner.inflight.len()
+                                inner.inflight_pubs
                             );
                             return Err(SpecViolation::Pub_3_3_4_7.into());
                         }
@@ -247,6 +257,7 @@ where
                             ));
                             return Ok(None);
                         }
+                        inner.inflight_pubs += 1;
                     }
 
                     // handle topic aliases
@@ -337,7 +348,12 @@ where
                 if self.inner.info.borrow().inflight.contains(&ack.packet_id) {
                     // packet id is released with PUBCOMP
                     let id = ack.packet_id.get();
-                    self.inner.control_pkt(ProtocolMessage::pubrel(ack, size), id).await
+                    let result =
+                        self.inner.control_pkt(ProtocolMessage::pubrel(ack, size), id).await;
+                    if result.is_ok() {
+                        self.inner.info.borrow_mut().release_pub();
+                    }
+                    result
                 } else {
                     Ok(Some(Encoded::Packet(codec::Packet::PublishComplete(
                         codec::PublishAck2 {
@@ -535,7 +551,9 @@ where
         let ack = if qos2 {
             // PUBREC with error reason code completes the exchange [MQTT-4.3.3]
             if u8::from(ack.reason_code) >= 0x80 {
-                inner.info.borrow_mut().inflight.remove(&id);
+                let mut info = inner.info.borrow_mut();
+                info.inflight.remove(&id);
+                info.release_pub();
             }
             codec::Packet::PublishReceived(codec::PublishAck {
                 packet_id: id,
@@ -544,7 +562,10 @@ where
                 properties: ack.properties,
             })
         } else {
-            inner.info.borrow_mut().inflight.remove(&id);
+            let mut info = inner.info.borrow_mut();
+            info.inflight.remove(&id);
+            info.release_pub();
+            drop(info);
             codec::Packet::PublishAck(codec::PublishAck {
                 packet_id: id,
                 reason_code: ack.reason_code,
